@@ -821,3 +821,93 @@ def descendents_model(ctx, rule):
                                       names, ("missing " + ", ".join(missing)) if missing else ("listed twice: " + ", ".join(dup)) if dup else "unexpected members"), key=f.qualname + "::descendents-model")
     else:
         ctx.ok(rule, f, f.node, "descendents(A) yields every transitive subclass once (%s)" % ", ".join(names))
+
+
+def dynamic_cache_writers(ctx, rule):
+    """Who may write the per-generator state of Dynamic parameters.  The value/time pair (_Dynamic_last, _Dynamic_time) is
+    written only by Dynamic._initialize_generator (initial state), Dynamic._produce_value (paired, decided by the cache
+    table rule) and Parameters._state_pop (restoring a saved pair); the clock (_Dynamic_time_fn) only by
+    _initialize_generator and Parameters.set_dynamic_time_fn.  Any other writer bypasses the pairing (a value cached under
+    the time of another value) or pins a clock onto state that copies and pickles duplicate."""
+    allowed = {
+        "_Dynamic_last": {"param.parameters.Dynamic._initialize_generator", "param.parameters.Dynamic._produce_value", P + "Parameters._state_pop"},
+        "_Dynamic_time": {"param.parameters.Dynamic._initialize_generator", "param.parameters.Dynamic._produce_value", P + "Parameters._state_pop"},
+        "_Dynamic_time_fn": {"param.parameters.Dynamic._initialize_generator", P + "Parameters.set_dynamic_time_fn"},
+    }
+    n = 0
+    for g in ctx.repo.funcs.values():
+        for st in ast.walk(g.node):
+            tg = st.targets if isinstance(st, ast.Assign) else ([st.target] if isinstance(st, (ast.AugAssign, ast.AnnAssign)) else [])
+            flat = []
+            for t in tg:
+                flat += list(t.elts) if isinstance(t, (ast.Tuple, ast.List)) else [t]
+            for t in flat:
+                if isinstance(t, ast.Attribute) and t.attr in allowed:
+                    n += 1
+                    if g.qualname in allowed[t.attr]:
+                        ctx.ok(rule, g, st, "sanctioned writer of %s" % t.attr)
+                    else:
+                        ctx.fail(rule, g, st, "%s writes `%s`: %s" % (g.qualname, norm(t), "the cached value changes without the time it belongs to (a later read at the cached time returns a value produced "
+                                 "for another time)" if t.attr != "_Dynamic_time_fn" else "a clock is pinned onto the generator, which lives in the instance's values: copies and pickles duplicate "
+                                 "it and stop following the clock the original follows"), key="%s::dynamic-state-writer::%s" % (g.qualname, t.attr))
+            if isinstance(st, ast.Call) and norm(st.func) == "setattr" and len(st.args) == 3 and isinstance(st.args[1], ast.Constant) and st.args[1].value in allowed and g.qualname not in allowed[st.args[1].value]:
+                n += 1
+                ctx.fail(rule, g, st, "%s writes %s through setattr" % (g.qualname, st.args[1].value), key="%s::dynamic-state-writer::%s" % (g.qualname, st.args[1].value))
+    ctx.require(n >= 8, "fewer than 8 writes of the Dynamic generator state found (%d)" % n)
+
+
+def time_fn_model(ctx, rule):
+    """Parameters.set_dynamic_time_fn interpreted abstractly for an instance whose parameter n holds a generator set on the
+    INSTANCE (the class default is a plain number) and for a class whose default is a generator.
+
+    Specification: the object is given the clock (future generators inherit it) and every generator that currently
+    produces the values of THAT object -- asked of the object itself, not of its class -- is given the clock."""
+    from engine.absint import Interp, Obj, Unsupported
+    from engine.loader import AnalysisError
+    f = ctx.repo.func(P + "Parameters.set_dynamic_time_fn")
+    problems, n = [], 0
+    for route in ("instance", "class"):
+        clock = Obj("the_clock")
+        gen = Obj("generator", _Dynamic_last=None, _Dynamic_time=-1)
+        plain = Obj("plain_parameter")
+        cls = Obj("Cls")
+        target = Obj("instance") if route == "instance" else cls
+        pn = Obj("param_n", __kind__="Dynamic")
+        pn.attrs["_value_is_dynamic"] = Obj("bound_method", __callable__=True)
+
+        def hook(fn, args, kwargs):
+            if fn == "isinstance" and len(args) == 2 and args[1] in ("type", "<type type>"):
+                return args[0] is cls
+            if fn == "hasattr" and len(args) == 2:
+                return isinstance(args[0], Obj) and args[1] in args[0].attrs
+            if fn.endswith(".param.objects"):
+                return {"n": pn, "m": plain}
+            if fn.endswith("._value_is_dynamic"):
+                # dynamic for the object the question is asked about: the instance holds a generator, the class default is a number
+                subject = args[0] if args and args[0] is not None else (args[1] if len(args) > 1 else None)
+                return subject is target
+            if fn.endswith(".get_value_generator"):
+                return gen if args and args[0] == "n" else None
+            return NotImplemented
+        ns = Obj("ns", self_or_cls=target, self=(target if route == "instance" else None), cls=cls)
+        target.attrs["param"] = Obj("namespace_of_target")
+        cls.attrs.setdefault("param", Obj("namespace_of_class"))
+        it = Interp(ctx.hier, dyn=P + "Parameters", inline=lambda m: False, call_hook=hook, globals={"type": "type"})
+        try:
+            outs = it.run_all(f, {"self_": ns, "time_fn": clock, "sublistattr": None})
+        except Unsupported as e:
+            raise AnalysisError("time-fn model: absint cannot interpret set_dynamic_time_fn: %s" % e)
+        if len(outs) != 1 or outs[0].imprecise or outs[0].kind != "return":
+            raise AnalysisError("time-fn model: set_dynamic_time_fn is not interpretable precisely (%s)" % (outs[0].notes[:2] if outs else "no outcome"))
+        n += 1
+        desc = "set_dynamic_time_fn(clock) on %s" % ("an instance whose parameter holds a generator set on the instance (class default: a number)" if route == "instance" else "a class whose default is a generator")
+        if target.attrs.get("_Dynamic_time_fn") is not clock:
+            problems.append("%s: the object itself is not given the clock (generators assigned later do not inherit it)" % desc)
+        if gen.attrs.get("_Dynamic_time_fn") is not clock:
+            problems.append("%s: the generator that produces the object's values is not given the clock: caching goes by the global time function while values are computed from the "
+                            "object's own, so the value returned depends on the visiting order" % desc)
+    ctx.abstract_cases += n
+    if problems:
+        ctx.fail(rule, f, f.node, "time-fn model: %s (%d disagreeing case(s))" % (problems[0], len(problems)), key=f.qualname + "::time-fn-model")
+    else:
+        ctx.ok(rule, f, f.node, "time-fn model: the object and every generator currently producing its values receive the clock (instance and class route)")
